@@ -2,7 +2,9 @@
 R1 InstanceCache.tla (Run arms, handleInstanceInfo, doRefresh, dispatcher batches) composed with the monitor.
 P-level CacheProp.tla (abstract cache from the statement: creation by the first answer, KeepGood, last-use, eviction / re-query at
 refresh ticks, gauges).  R2 CacheSched.tla (exhaustive short schedules, Core schedules, seeded long walks) x provider batch limits.
-S2 harness c12: real CachedCloudProvider + lookup dispatcher, scripted CloudProvider, virtual time.  R3 CacheTrace.tla."""
+S2 harness c12: real CachedCloudProvider + lookup dispatcher, scripted CloudProvider, virtual time.  R3 CacheTrace.tla.
+Recorded run TestPeekRace: reads from several goroutines at the very tick at which the entries have become idle (not judged), then the
+    final gauges and reads against the abstract cache (CacheTrace.tla)."""
 import json
 import os
 import vlib
